@@ -1,5 +1,5 @@
 (* Entry points of the SQL classifier model and of the reference SQL tokenizer. *)
-From DippyV Require Import Base.Str Base.Verdict Base.Sx Model.Sql Model.SqlSpec Entry.Common.
+From DippyV Require Import Base.Str Base.Verdict Base.Sx Gen.Tables Model.Sql Model.SqlSpec Entry.Common.
 
 Definition sx_of_optbool (o : option bool) : sx := sx_opt sx_of_bool o.
 Definition sx_of_nat (n : nat) : sx := A (repeat 49 n).      (* unary: n times "1" *)
@@ -25,6 +25,12 @@ Section Orc.
     else if is_cmd cmd "sql_multi" then Some (sx_of_bool (has_multiple_statements (sx_str (a 0%nat))))
     else if is_cmd cmd "sql_readonly" then
       Some (sx_of_optbool (is_readonly_sql (sx_strs (a 1%nat)) (sx_strs (a 2%nat)) (sx_str (a 0%nat))))
+    else if is_cmd cmd "sql_dialect" then
+      let d := sx_str (a 1%nat) in
+      let wr := if str_eqb d $"sqlite3" then SQLITE_WRITE else if str_eqb d $"duckdb" then DUCKDB_WRITE
+                else if str_eqb d $"psql" then POSTGRES_WRITE else if str_eqb d $"mysql" then MYSQL_WRITE
+                else if str_eqb d $"athena" then ATHENA_WRITE else [] in
+      Some (sx_of_optbool (is_readonly_sql [] wr (sx_str (a 0%nat))))
     else if is_cmd cmd "sqlite3_classify" then Some (sx_of_verdict (sqlite3_classify (sx_strs (a 0%nat))))
     else if is_cmd cmd "sqlite3_parts" then Some (sx_of_strs (sqlite3_parts (tl (sx_strs (a 0%nat))) false))
     else if is_cmd cmd "sql_lex" then Some (L (map sx_of_tok (sql_lex (sx_str (a 0%nat)))))
